@@ -147,6 +147,7 @@ def schedule_rules(rng, n_jobs):
         {'role': 'Worker-%d' % rng.randrange(n_jobs), 'op': 'array.set+', 'obj': rng.choice(['workers_dead', 'working_on_job', 'restart_array', 'results_received']),
          'sleep': rng.choice([0.03, 0.15]), 'p': .5},
         {'role': 'main', 'op': 'event.set+', 'obj': None, 'sleep': rng.choice([0.02, 0.1]), 'p': .4},
+        {'role': 'Worker-%d' % rng.randrange(n_jobs), 'op': 'q.task_done+', 'obj': None, 'sleep': rng.choice([0.02, 0.2]), 'p': .5},
         {'role': 'results_handler', 'op': 'array.set+', 'obj': None, 'sleep': rng.choice([0.02, 0.1]), 'p': .4},
     ]
     return rng.sample(lib, rng.choice([1, 1, 2]))
